@@ -79,7 +79,8 @@ skipp(__skipspec_t ss, struct dt_dt_s dt)
 	if (ss == 0) {
 		return 0;
 	}
-	dow = dt_get_wday(dt.d);
+	/* the weekday of what will be printed, think 31 Sep after a month step */
+	dow = dt_get_wday(dt_fixup(dt).d);
 	/* just check if the bit in the bitset `skip' is set */
 	return (ss & (1 << dow)) != 0;
 }
